@@ -122,6 +122,13 @@ bool XMLFormatter::inEscapeList(const XMLFormatter::EscapeFlags escStyle
         {
             return true;
         }
+        else if (toCheck == chNEL || toCheck == chLineSeparator)
+        {
+            // XML 1.1, 2.11: a literal #x85 or #x2028 is a line end and is
+            // reported as #xA when the output is parsed again, so these two
+            // only survive as character references.
+            return true;
+        }
         else
         {
             return false;
